@@ -30,8 +30,12 @@ def explore(part, cfg, k, depth, low, nan=False):
     events = T.frame_events(k, low_score=low, nan_marks=nan)
     cfgkey = core.digest(cfg)
     root = T.new_tracker(cfg)
-    seen = {T.canon(root, with_nan=nan): ([], root)}
+    seen = {T.canon(root, with_nan=nan, history=[]): ([], root)}
     frontier = [([], root)]
+    if not T.INTERNALS_OK["canon"]:
+        # tracker internals are not laid out as the harness expects: states are histories (a tree); keep it affordable
+        depth = min(depth, 3)
+        part.add("fallback_tree_search_depth_capped_at_3")
     merged = 0
     nstates = 1
     for d in range(depth):
@@ -50,7 +54,7 @@ def explore(part, cfg, k, depth, low, nan=False):
                     continue
                 obs = T.observe(ev, out)
                 part.outcome(repr((obs, len(ev))))
-                c = T.canon(t2, with_nan=nan)
+                c = T.canon(t2, with_nan=nan, history=h2)
                 key = f"{cfgkey}:{c}"
                 if had_tracks and ev:
                     part.nontriv(f"{cfgkey}:{T.canon(trk, with_nan=nan)}:{ev}")
@@ -80,7 +84,7 @@ def explore(part, cfg, k, depth, low, nan=False):
                     for i, e in enumerate(h2):
                         T.step(fresh, e, frame_idx=i)
                     part.add("replay_crosschecks")
-                    if T.canon(fresh, with_nan=nan) != c:
+                    if T.canon(fresh, with_nan=nan, history=h2) != c:
                         part.violation(
                             {"harness": "replay", "cfg": cfg, "history": h2},
                             f"HARNESS: state reached through deepcopy chain differs from replay on a fresh tracker for {h2}",
@@ -89,6 +93,8 @@ def explore(part, cfg, k, depth, low, nan=False):
         frontier = nxt
     part.maxi("max_depth", depth)
     part.add("merged_transitions", merged)
+    if not all(T.INTERNALS_OK.values()):
+        part.add("fallback_history_states_or_deepcopy")
 
 
 def work(part, shard):
